@@ -19,6 +19,8 @@ DEFS_A = [dict(groups=0, names=[None]), dict(groups=1, names=[None, 'n']), dict(
 # definitions 0 and 2 have the same group structure: their regex TEXTS may be identical (a symbolic Boolean) while their
 # locations differ - the same step definition written in two places
 DEFS_B = [dict(groups=0, names=[None]), dict(groups=1, names=[None, 'n']), dict(groups=0, names=[None])]
+# hand-registered definitions (no Location) with three different regex texts: nothing but the regex text orders them
+DEFS_C = [dict(groups=0, names=[None], noloc=True), dict(groups=1, names=[None, 'n'], noloc=True), dict(groups=0, names=[None], noloc=True)]
 DEFS = DEFS_A
 
 
@@ -58,6 +60,8 @@ def obligations(chk, prop='C17'):
     clone_body = cb[0] if len(cb) == 1 else None
     global DEFS
     runs = [(l, DEFS_A) for l in layouts] + [(l, DEFS_B) for l in (('given', 'when', 'given'), ('given', 'given', 'given'), ('then', 'when', 'then'))]
+    runs += [(l, DEFS_C) for l in (('given', 'given', 'when'), ('then', 'when', 'then'))]       # two candidates at most: the anchors and the comparison of stripped texts are free per pair
+    cmp_body = common.find_method(prog, 'HashableRegex', 'cmp', 'Ord')
     for layout, DEFS in runs:
         same_text = z3.Bool('same-regex-text(0,2)') if DEFS is DEFS_B else z3.BoolVal(False)
         ex, M = chk.new_exec(loop_bound=16, max_paths=6000)
@@ -142,9 +146,76 @@ def obligations(chk, prop='C17'):
                 return Obj('symstr', name='slice-of-%s-by-offsets-of-group(%d,%d)' % (bname, s.d['d'], s.d['g']))
             raise Inconclusive('string index by %r' % (r,))
 
-        @reg('Itertools::sorted')
+        @reg('Regex::as_str')
         def _(ex_, info, a, dty):
+            return Obj('pattern', d=def_of(ex_, a[0]), lead=False, trail=False)
+
+        def pattern_of(ex_, v):
+            v = ex_.materialize(v)
+            for _ in range(4):
+                if isinstance(v, Ref):
+                    v = ex_.materialize(ex_.read_path(v.cell, v.path))
+            return v if isinstance(v, Obj) and v.kind == 'pattern' else None
+
+        @reg('<impl>::strip_prefix', '<impl>::strip_suffix')
+        def _(ex_, info, a, dty):
+            # stripping an anchor off a regex text: whether the text has it is a free Boolean per definition
+            p_ = pattern_of(ex_, a[0])
+            ch = ex_.materialize(a[1])
+            anchor = {'strip_prefix': "'^'", 'strip_suffix': "'$'"}[info['method']]
+            if p_ is None or not (isinstance(ch, Obj) and ch.kind == 'char' and ch.text == anchor):
+                raise Inconclusive('%s(%r, %r)' % (info['method'], p_, ch))
+            which = 'lead' if info['method'] == 'strip_prefix' else 'trail'
+            if p_.d[which] or not ex_.branch(z3.Bool('regex-text(%d)-%s' % (p_.d['d'], 'starts-with-^' if which == 'lead' else 'ends-with-$'))):
+                return M.none(dty)
+            return M.some(dty, p_.set(**{which: True}))
+
+        prev_cmp = M.table.get('Ord::cmp')
+
+        def ordering(k):
+            return Adt('std::cmp::Ordering', {}, k)          # Less 0 / Equal 1 / Greater 2
+
+        @reg('Ord::cmp')
+        def _(ex_, info, a, dty, same_text=same_text):
+            x, y = pattern_of(ex_, a[0]), pattern_of(ex_, a[1])
+            if x is None or y is None:
+                if prev_cmp is not None:
+                    return prev_cmp(ex_, info, a, dty)
+                raise Inconclusive('Ord::cmp on %r' % (a[0],))
+            kx, ky = (x.d['d'], x.d['lead'], x.d['trail']), (y.d['d'], y.d['lead'], y.d['trail'])
+            if kx == ky:
+                return ordering(1)
+            if not (x.d['lead'] or x.d['trail'] or y.d['lead'] or y.d['trail']):
+                # whole regex texts: r0 < r1 < r2, except that r0 and r2 may be the same text (DEFS_B)
+                if {kx[0], ky[0]} == {0, 2} and ex_.branch(same_text):
+                    return ordering(1)
+                return ordering(0 if kx[0] < ky[0] else 2)
+            # texts with an anchor stripped: how they compare is free (consistently per unordered pair on a path)
+            memo = ex_.env.setdefault('pattern_cmp', {})
+            lo, hi = sorted((kx, ky))
+            if (lo, hi) not in memo:
+                memo[(lo, hi)] = 1 if ex_.branch(z3.Bool('stripped-texts-equal%s%s' % (lo, hi))) else (0 if ex_.branch(z3.Bool('stripped-text-less%s%s' % (lo, hi))) else 2)
+            r_ = memo[(lo, hi)]
+            return ordering(r_ if (kx, ky) == (lo, hi) else 2 - r_)
+
+        @reg('Itertools::sorted')
+        def _(ex_, info, a, dty, same_text=same_text):
             items = M.seq_of(ex_, a[0])
+            # a stable sort keeps candidates that compare Equal in the order they came out of the hash map: two candidates
+            # with different regex texts and the same location must therefore never compare Equal (real `Ord for HashableRegex`)
+            def loc_id(it):
+                l_ = ex_.materialize(ex_.field_of(ex_.materialize(it), None, 1, 'Option<step::Location>'))
+                if z3.simplify(M.discr(ex_, l_)).as_long() == 0:
+                    return None
+                return def_of(ex_, ex_.field_of(l_, 1, 0, 'step::Location'))
+            for x_, y_ in itertools.combinations(items, 2):
+                kx_, ky_ = (ex_.field_of(ex_.materialize(v_), None, 0, 'HashableRegex') for v_ in (x_, y_))
+                dx_, dy_ = def_of(ex_, kx_), def_of(ex_, ky_)
+                if dx_ == dy_ or loc_id(x_) != loc_id(y_):
+                    continue
+                r_ = ex_.materialize(ex_.call_body(cmp_body, [Ref(Cell(ex_.materialize(kx_)), ()), Ref(Cell(ex_.materialize(ky_)), ())]))
+                if z3.simplify(M.discr(ex_, r_)).as_long() == 1 and not ({dx_, dy_} == {0, 2} and not ex_.check(z3.Not(same_text))):
+                    M.log(ex_, 'sort_tie', a=dx_, b=dy_)
             # definitions are created with regex texts r0 < r1 < r2, so (regex, location) order is the definition order
             return Obj('iter', items=tuple(sorted(items, key=lambda it: def_of(ex_, ex_.field_of(ex_.materialize(it), None, 0, 'HashableRegex')))), ty=dty)
         orig_map = M.table['Iterator::map']
@@ -177,14 +248,15 @@ def obligations(chk, prop='C17'):
             # every order anyway): whatever key the maps use is the code's own
             coll = Adt('step::Collection<W>', {(None, CF.index(k)): M.new_assoc('?', '?', []) for k in ('given', 'when', 'then')})
             for i, k in enumerate(layout):
-                loc = Adt('Option<step::Location>', {(1, 0): Obj('loc', d=i)}, 1)
+                loc = Adt('Option<step::Location>', {(1, 0): Obj('loc', d=i)}, 0 if DEFS[i].get('noloc') else 1)
                 coll = ex_.call_body(reg_body[k], [coll, loc, Obj('regex', d=i), Obj('stepfn', d=i)])
             # a clone of a configured collection (runner::Basic::clone / Cucumber::clone copy it) matches exactly like the original
             if clone_body is not None and ex_.branch(z3.Bool('use-a-clone-of-the-collection')):
                 coll = ex_.call_body(clone_body, [Ref(Cell(coll, name='original collection'), ())])
             step = Adt('gherkin::Step', {(None, SF.index('ty')): Adt('gherkin::StepType', {}, kwd), (None, SF.index('value')): Obj('symstr', name='step.value')}, None, 'step')
             out = ex_.call_body(find, [Ref(Cell(coll, name='collection'), ()), Ref(Cell(step, name='step'), ())])
-            return {'out': ex_.materialize(out), 'tried': [e['d'] for e in ex_.env.get('log', []) if e['kind'] == 'regex_tried']}
+            return {'out': ex_.materialize(out), 'tried': [e['d'] for e in ex_.env.get('log', []) if e['kind'] == 'regex_tried'],
+                    'ties': [(e['a'], e['b']) for e in ex_.env.get('log', []) if e['kind'] == 'sort_tie']}
 
         def on_end(ex_, rec, layout=layout, M=M, DEFS=DEFS):
             kind, res, pc, dec = rec
@@ -240,6 +312,10 @@ def obligations(chk, prop='C17'):
                 if not okk:
                     o4.verdict, o4.detail = 'violated', 'definitions %s match, the error lists %s' % (cands, listed)
                     o4.model = dict(model, listed=listed)
+                elif res.get('ties') and o4.verdict != 'violated':
+                    o4.verdict = 'violated'
+                    o4.detail = 'candidates %s have different regex texts and the same location but compare Equal: a stable sort leaves them in the hash map\'s iteration order, the listing is not deterministic' % (list(res['ties'][0]),)
+                    o4.model = dict(model, ties=[list(t_) for t_ in res['ties']])
             else:
                 i = cands[0]
                 o5 = ob('one-match=>that-definition-with-whole-match-and-all-groups-in-order')
@@ -320,6 +396,13 @@ def confirm(chk, bad):
             want = 'one:%s:%s' % (cands[0], ';'.join('%s=%s' % (a, b.replace(' ', '_')) for a, b in parts))
         if kv['result'] != want:
             devs.append('%s | reference %s' % (ln, want))
+    # look-alike hand-registered definitions on 64 fresh collections each: one listing per pair, whatever the hash seeds
+    for ln in out.splitlines():
+        m_ = re.match(r'TIE pair=(\d+) distinct=(\d+) listings=(.*)$', ln)
+        if m_:
+            n += 1
+            if m_.group(2) != '1':
+                devs.append('the same two ambiguous definitions are listed in %s different orders over 64 fresh collections: %s' % (m_.group(2), m_.group(3).replace('_', ' ')))
     for o in bad:
         if res is None or n == 0:
             o.verdict = 'inconclusive'
